@@ -550,6 +550,7 @@ type Frame struct {
 	Recovered  bool // a deferred call of this frame recovered the panic
 	Visits     map[int]int
 	RecoverDone bool
+	Pending     *PanicInfo // panic in flight while this frame runs its deferred calls
 }
 
 type PanicInfo struct {
@@ -578,7 +579,7 @@ func (s *State) Clone() *State {
 	}
 	n.Frames = make([]*Frame, len(s.Frames))
 	for i, f := range s.Frames {
-		nf := &Frame{Fn: f.Fn, Env: make(map[ssa.Value]Value, len(f.Env)), ByDefer: f.ByDefer, Recovered: f.Recovered, RecoverDone: f.RecoverDone}
+		nf := &Frame{Fn: f.Fn, Env: make(map[ssa.Value]Value, len(f.Env)), ByDefer: f.ByDefer, Recovered: f.Recovered, RecoverDone: f.RecoverDone, Pending: f.Pending}
 		for k, v := range f.Env {
 			nf.Env[k] = v
 		}
@@ -655,7 +656,10 @@ func mergeStates(a, b *State, base int, at *ssa.BasicBlock) (*State, bool) {
 		if fa.Fn != fb.Fn || len(fa.Defers) != len(fb.Defers) || fa.ByDefer != fb.ByDefer || fa.Recovered != fb.Recovered {
 			return nil, false
 		}
-		nf := &Frame{Fn: fa.Fn, Env: make(map[ssa.Value]Value, len(fa.Env)), ByDefer: fa.ByDefer, Recovered: fa.Recovered}
+		if (fa.Pending == nil) != (fb.Pending == nil) {
+			return nil, false
+		}
+		nf := &Frame{Fn: fa.Fn, Env: make(map[ssa.Value]Value, len(fa.Env)), ByDefer: fa.ByDefer, Recovered: fa.Recovered, Pending: fa.Pending}
 		for k, va := range fa.Env {
 			vb, ok := fb.Env[k]
 			if !ok {
